@@ -447,5 +447,66 @@ func runC18(args []string) int {
 			}()})
 		}
 	}
+	// ---------------- (3) every container that holds a component-bearing message type stores it EXPANDED
+	// (the real expandComponents, judged against the spec in part 1, is the reference here)
+	for _, ft := range profile().validFts {
+		f0, err := fitNewFile(ft)
+		if err != nil {
+			continue
+		}
+		_, slots0 := fileSlots(f0)
+		for _, sl := range slots0 {
+			if sl.msg < 0 {
+				continue
+			}
+			probe, ok := newFilled(sl.msg, 5)
+			if !ok {
+				continue
+			}
+			if _, has := expandedCopy(probe); !has {
+				continue
+			}
+			// the property names record, lap, session, segment_lap and event; segment_point also has an
+			// expandComponents method that SegmentFile.add never calls -- outside the property, noted in DESIGN.md
+			switch fit.MesgNum(sl.msg) {
+			case fit.MesgNumRecord, fit.MesgNumLap, fit.MesgNumSession, fit.MesgNumSegmentLap, fit.MesgNumEvent:
+			default:
+				r.hist("container_expansion_not_in_property_msg_" + strconv.Itoa(sl.msg))
+				continue
+			}
+			for k := 0; k < 6; k++ {
+				m, _ := newFilled(sl.msg, rg.intn(1<<16))
+				f, _ := fitNewFile(ft)
+				addCopy(f, m)
+				_, slots := fileSlots(f)
+				var stored []reflect.Value
+				for _, s2 := range slots {
+					if s2.name == sl.name {
+						stored = slotMsgs(s2)
+					}
+				}
+				rep := map[string]interface{}{"entry": "File.add", "filetype": ft, "mesgnum": sl.msg, "slot": sl.name, "message": markerOfMsg(m)}
+				r.count(fmt.Sprintf("container|%d|%d|%d", ft, sl.msg, k), true)
+				r.hist("container_expansion_probes")
+				if len(stored) != 1 {
+					r.specFail("container_store", fmt.Sprintf("file type %d: a message of type %d added to an empty file is not in slot %s", ft, sl.msg, sl.name), rep)
+					continue
+				}
+				ok, exp, det := msgEq(stored[0], m)
+				if !ok {
+					r.specFail("container_expand", fmt.Sprintf("file type %d slot %s: the stored message is neither the message added nor its expansion", ft, sl.name), rep)
+				} else if det && !exp {
+					r.specFail("container_no_expand", fmt.Sprintf("file type %d slot %s: the message (type %d) is stored without its components expanded: %s", ft, sl.name, sl.msg, markerOfMsg(stored[0])), rep)
+				}
+			}
+		}
+	}
 	return r.finish()
+}
+
+
+func markerOfMsg(v reflect.Value) string {
+	var sb strings.Builder
+	canonMsg(&sb, v)
+	return sb.String()
 }
